@@ -94,9 +94,21 @@ package node
 // ------------------------------------------------------------------------------------------------
 // Transaction pools (C05)
 
+// Inserting an event through the core runs the hashgraph pipeline and, for an event of this node, moves head/seq
+// to it; a refused event moves neither. The pools are not touched by either function.
+//@ func (c *core) insertEventAndRunConsensus(event *hg.Event, setWireInfo bool) error
+//@   requires c != nil && c.hg != nil && c.validator != nil && c.validator.Key != nil && event != nil && len(event.Body.Parents) == 2 && c.hg.ConsensusReady()
+//@   ensures[ready]   c.hg == old(c.hg) && c.hg.ConsensusReady()
+//@   ensures[refused] ret0 != nil ==> c.head == old(c.head) && c.seq == old(c.seq)
+//@   ensures[head]    ret0 == nil ==> (c.head == old(c.head) && c.seq == old(c.seq)) || (c.head == hg.HexOf(event) && c.seq == event.Body.Index)
+//@   ensures[pools]   __eq(c.transactionPool, old(c.transactionPool)) && __eq(c.internalTransactionPool, old(c.internalTransactionPool))
+
 //@ func (c *core) signAndInsertSelfEvent(event *hg.Event) error
-//@   trusted not verified as a whole (signs the event and runs the complete insertion and consensus pipeline, whose parts are verified separately); only its engine-computed write-set is used here
-//@   requires c != nil && event != nil
+//@   requires c != nil && c.hg != nil && c.validator != nil && c.validator.Key != nil && event != nil && len(event.Body.Parents) == 2 && c.hg.ConsensusReady()
+//@   ensures[ready]   c.hg == old(c.hg) && c.hg.ConsensusReady()
+//@   ensures[refused] ret0 != nil ==> c.head == old(c.head) && c.seq == old(c.seq)
+//@   ensures[pools]   __eq(c.transactionPool, old(c.transactionPool)) && __eq(c.internalTransactionPool, old(c.internalTransactionPool))
+//@   call insertEventAndRunConsensus assert[signed-first] __lastret("Sign", 0) == nil && __arg(0) == event
 
 //@ func (c *core) addTransactions(txs [][]byte)
 //@   requires c != nil
@@ -105,7 +117,8 @@ package node
 
 //@ func (c *core) addSelfEvent(otherHead string) error
 //@   safety on
-//@   requires c != nil && c.hg != nil && c.validator != nil && c.validator.Key != nil && c.selfBlockSignatures != nil
+//@   requires c != nil && c.hg != nil && c.validator != nil && c.validator.Key != nil && c.selfBlockSignatures != nil && c.hg.ConsensusReady()
+//@   ensures[ready]           c.hg == old(c.hg) && c.hg.ConsensusReady()
 //@   ensures[too-early]       c.hg.Store.LastRound() < old(c.acceptedRound) && !__called("signAndInsertSelfEvent") ==> ret0 == nil && __eq(c.transactionPool, old(c.transactionPool)) && __eq(c.internalTransactionPool, old(c.internalTransactionPool))
 //@   ensures[not-inserted]    !__called("signAndInsertSelfEvent") ==> __eq(c.transactionPool, old(c.transactionPool)) && __eq(c.internalTransactionPool, old(c.internalTransactionPool))
 //@   call signAndInsertSelfEvent assert[handover] __arg(0) == newHead && __eq(newHead.Body.Transactions, old(c.transactionPool)) && __eq(newHead.Body.InternalTransactions, old(c.internalTransactionPool)) && newHead.Body.Index == old(c.seq) + 1 && len(newHead.Body.Parents) == 2 && newHead.Body.Parents[0] == old(c.head) && newHead.Body.Parents[1] == otherHead
